@@ -4,6 +4,8 @@ pub mod core;
 
 /// dump models + serialisation through minidump-synth (C02, C14, C15, C19, C03)
 pub mod dumpgen;
+/// processed-dump generators with an independent index model (C14, C15, C19)
+pub mod procgen;
 /// seed dumps containing every stream type (C01, C03, C20)
 pub mod seeds;
 /// the "do everything a consumer can do" driver for a parsed minidump (C01)
